@@ -208,6 +208,8 @@ def main():
     nimg, nhist, ndamaged, histlen = (32, 500, 6, 40) if t == "quick" else (400, 5000, 24, 120)
     items = [(bdir, derive(seed, "c10", i) >> 1, nhist, ndamaged, histlen, "asan" if i % 4 == 3 else "plain") for i in range(nimg)]
     items += [(bdir, (derive(seed, "c10hv", i) >> 1) | (1 << 63), nhist, 2, histlen, "asan" if i % 4 == 3 else "plain") for i in range(4 if t == "quick" else 24)]
+    if os.environ.get("VERIF_ONLY") == "holevariants":      # development aid: only the hole-variant items
+        items = [x for x in items if x[1] >> 63]
     results = list(pmap_unordered(work, items))
     vg = pmap(valgrind_work, [(bdir, derive(seed, "c10vg", i) >> 1, 25 if t == "quick" else 200) for i in range(4 if t == "quick" else 32)])
     stat = {}
